@@ -68,6 +68,7 @@ SPECS["C01"] = dict(
         rapid("TestC01FreeRun", 120, 4000, sq=3, st=12),
         dict(rapid("TestC01FreeRun", 60, 1500, sq=1, st=6), label="TestC01FreeRun-race", race=True, tiers=(T,)),
         rapid("TestC01RealUDP", 40, 1500, sq=2, st=8),
+        rapid("TestC01StreamMtuRaise", 400, 12000, sq=2, st=8),
     ],
 )
 
